@@ -599,7 +599,12 @@ func (vc *VC) callStatic(s *State, call *ast.CallExpr, fn *types.Func, recv *Ter
 	}
 	if model, ok := stdModels[key]; ok {
 		vc.lastRecv = recv
-		return model(vc, s, call, args)
+		vc.recordCall(s, exprStr(call.Fun), sig, args, nil)
+		res := model(vc, s, call, args)
+		if len(res) == sig.Results().Len() {
+			vc.recordCall(s, exprStr(call.Fun), sig, nil, res)
+		}
+		return res
 	}
 	if fi != nil && fi.Decl != nil && fi.Decl.Body != nil && vc.canInline(fi) {
 		vc.prog.Inlined[shortKey(key)] = true
@@ -608,7 +613,10 @@ func (vc *VC) callStatic(s *State, call *ast.CallExpr, fn *types.Func, recv *Ter
 	if isPureStd(key) {
 		return vc.pureStdCall(s, call, key, sig, recv, args)
 	}
-	return vc.havocCall(s, call, "uncontracted call "+shortKey(key), sig)
+	vc.recordCall(s, exprStr(call.Fun), sig, args, nil)
+	res := vc.havocCall(s, call, "uncontracted call "+shortKey(key), sig)
+	vc.recordCall(s, exprStr(call.Fun), sig, nil, res)
+	return res
 }
 
 func (vc *VC) callDynamic(s *State, call *ast.CallExpr, m *types.Func, recv *Term) []*Term {
@@ -945,6 +953,10 @@ func (vc *VC) applySpecNoBody(s *State, call *ast.CallExpr, key string, spec *Fu
 	}
 	if call != nil {
 		vc.recordCall(s, exprStr(call.Fun), sig, args, nil)
+		if sig.Recv() != nil && recv != nil && vc.fn != nil && vc.fn.Spec != nil && vc.fn.Spec.WatchCalls[exprStr(call.Fun)] {
+			s.ghost["$call."+exprStr(call.Fun)+".recv"] = recv
+			vc.ghostTypes["$call."+exprStr(call.Fun)+".recv"] = sig.Recv().Type()
+		}
 	}
 	pre := s.clone()
 	vc.callHavoc(s, spec, fi, env.inState(pre))
@@ -1052,6 +1064,14 @@ func (vc *VC) initCallRecords(s *State, body ast.Node, info *types.Info) {
 		}
 		s.ghost[k+".n"] = IntLit(0)
 		vc.ghostTypes[k+".n"] = types.Typ[types.Int]
+		if sel, ok := ast.Unparen(call.Fun).(*ast.SelectorExpr); ok {
+			if sl := info.Selections[sel]; sl != nil && sl.Kind() == types.MethodVal {
+				if msig, ok := sl.Obj().Type().(*types.Signature); ok && msig.Recv() != nil {
+					s.ghost[k+".recv"] = Fresh("nocall", sortOf(msig.Recv().Type()))
+					vc.ghostTypes[k+".recv"] = msig.Recv().Type()
+				}
+			}
+		}
 		for i := 0; i < sig.Params().Len(); i++ {
 			t := sig.Params().At(i).Type()
 			s.ghost[fmt.Sprintf("%s.arg%d", k, i)] = Fresh("nocall", sortOf(t))
